@@ -1,5 +1,7 @@
 mod r#gen;
 mod node;
+mod parsers;
+mod sample;
 mod runner;
 mod scenario;
 mod send;
@@ -147,6 +149,17 @@ fn main() -> Result<()> {
       arg_value(&args, "--seed").map(|s| s.parse().unwrap()).unwrap_or(0),
       arg_value(&args, "--n").map(|s| s.parse().unwrap()).unwrap_or(100),
       &arg_value(&args, "--out").ok_or_else(|| anyhow!("--out"))?,
+    ),
+    "sample" => sample::run(
+      &arg_value(&args, "--family").ok_or_else(|| anyhow!("--family"))?,
+      arg_value(&args, "--seed").map(|s| s.parse().unwrap()).unwrap_or(0),
+      arg_value(&args, "--n").map(|s| s.parse().unwrap()).unwrap_or(200),
+      &arg_value(&args, "--out").ok_or_else(|| anyhow!("--out"))?,
+      args.iter().any(|a| a == "--full"),
+      arg_value(&args, "--heights").map(|s| {
+        let (a, b) = s.split_once("..").unwrap();
+        (a.parse().unwrap(), b.parse().unwrap())
+      }),
     ),
     "crash-child" => runner::crash_child(&args[1..]),
     other => Err(anyhow!("unknown command {other}")),
